@@ -326,8 +326,6 @@ def r_apply(ref, op):
         ps = [P(k) for k in op["keys"]]
         if any(p is None for p in ps):
             raise Unspec("invalid key")
-        if prefix_related(ps):
-            raise Unspec("prefix-related key list")
         out = {}
         for p in ps:
             v = r_get(d, p)
@@ -851,7 +849,9 @@ def gen_op(rng, ref, ctr):
                 continue
             # lazy update / unflatten_keys / in-place flatten_keys go through _lazy.py's own code paths, on which this
             # run showed further divergences that were not triaged (notes/C04-selftest.md): not drawn for this subject
-            if op["op"] in ("update", "unflatten") or (op["op"] in ("flatten", "select", "exclude") and op["inplace"]):
+            # unflatten_keys: the result depends on the order in which the root keys are visited, and a lazy stack
+            # does not iterate its keys in insertion order: not determined by the nested dict, not drawn
+            if (op["op"] in ("flatten", "select", "exclude") and op["inplace"]) or op["op"] == "unflatten":
                 continue
             # invalid keys: a raise half-way through the members leaves the stack heterogeneous (outside the property)
             if any(strings_of(key_unjson(k)) is None for k in op_keys(op)):
@@ -1039,13 +1039,13 @@ def theorem_scope(op):
     if any(p is None for p in ps):
         return "outside:invalid-key"
     name = op["op"]
-    if name in PROVED_KINDS:
-        if name == "rename" and len(ps[0]) < len(ps[1]) and ps[1][:len(ps[0])] == ps[0]:
-            return "refuted:D42-region"
+    if name in PROVED_KINDS or name == "flatten":
+        if name == "rename" and op["safe"] and len(ps[0]) < len(ps[1]) and ps[1][:len(ps[0])] == ps[0]:
+            return "outside:safe-rename-into-own-subtree"
         return "proved:C04_refine_step"
-    if name == "flatten":
-        return "refuted:D24-region" if op["inplace"] else "proved:C04_refine_step"
-    if name in ("select", "exclude", "split") and prefix_related(ps):
+    if name == "select" and prefix_related(ps):
+        return "refuted:D48-region"
+    if name in ("exclude", "split") and prefix_related(ps):
         return "outside:prefix-related-keys"
     if name == "select" and not op["strict"]:
         return "outside:non-strict-select"
@@ -1080,6 +1080,15 @@ def op_signature(op, ref):
                 sig["pattern"] = "unrelated"
     elif name in ("select", "exclude", "split", "unflatten"):
         sig["inplace"] = op["inplace"]
+        if name == "select":
+            ps = [P(k) for k in op["keys"]]
+            if all(p is not None for p in ps):
+                sig["pattern"] = "key-and-its-subkey" if prefix_related(ps) else "prefix-free"
+    elif name == "update":
+        ps = [P(k) for k, _ in op["items"]]
+        if all(p is not None for p in ps):
+            rel = prefix_related(ps) or len({tuple(p) for p in ps}) < len(ps)
+            sig["pattern"] = "prefix-related-items" if rel else "independent-items"
     return sig
 
 
@@ -1173,6 +1182,18 @@ def run_history1(args):
             hist["expect:" + exp[0]] = hist.get("expect:" + exp[0], 0) + 1
             before = snap(td)
             r, ret, results = run_op(td, op, rng)
+            if op.get("thru_nt"):
+                if r[0] == "ok":
+                    k = key_unjson(op["key"])
+                    g = call(lambda: td.get(k))
+                    listed = call(lambda: strings_of(k) in [keyl(x) for x in td.keys(True, is_leaf=T["is_leaf_nontensor"])])
+                    member = call(lambda: k in td.keys(True))
+                    if g[0] == "ok" and g[1] is not None and not (listed[0] == "ok" and listed[1] and member[0] == "ok" and member[1]):
+                        fail("hidden-entry", {"op": op}, {"set": "accepted", "get": summ(g[1]), "listed_by_keys": listed[1], "in_keys": member[1]},
+                             {"call": "set", "pattern": "path-through-nontensor-leaf"})
+                hist["thru-nontensor-probe"] = hist.get("thru-nontensor-probe", 0) + 1
+                case["ops"].pop()
+                break
             st["outcome"] = "ok" if r[0] == "ok" else r[1]
             st["exc"] = None if r[0] == "ok" else r[2]
             st["ret"] = ret
@@ -1199,9 +1220,8 @@ def run_history1(args):
                         fail("raise-changed-state", {"op": op}, {"before": before, "after": after}, dict(sig, pattern2="raise-not-atomic"))
             else:
                 _, new_ref, want_ret, want_results = exp
-                relaxed_raise = sig.get("pattern", "").startswith("old-strict-prefix-of-new")
                 if r[0] != "ok":
-                    if not relaxed_raise:
+                    if True:
                         fail("unexpected-raise", {"op": op}, {"reference": "succeeds", "implementation": [r[1], r[2]]}, dict(sig, pattern2="raises"))
                 else:
                     if not cmp_unordered(after, val_json(new_ref)):
